@@ -1,4 +1,5 @@
-import UgoVerif.Proofs.VMLiveRun
+import UgoVerif.Proofs.C07Ops
+import UgoVerif.Proofs.C07Heap
 import UgoVerif.Gen.VmWrites
 /-
   C07 — a run's outcome depends only on bytecode, globals and arguments.
@@ -8,13 +9,14 @@ import UgoVerif.Gen.VmWrites
   prior state `s`: the history of the VM (earlier runs that returned, failed, panicked,
   overflowed or were aborted) is quantified as "any state whatsoever".
 
-  Proved in full:   prologue_live, prologue_live_cleared, bytecode_immutable,
-                    step_keeps_bytecode, no_shared_store_outside_allowlist,
-                    lifting_run (step-level liveness ⇒ equal outcomes, every fuel).
-  Proved partially: run_history_independent_partial, run_history_independent_cleared_partial,
-                    rerun_same_partial — the hypotheses `StepLive`, `PanicLive` (one
-                    instruction / the recovery path preserve the liveness relation) are what
-                    is missing from `C07_full`; they are not proved opcode by opcode yet.
+  Proved in full:   prologue_live, prologue_live_cleared, step_live, panic_live, lifting_run,
+                    run_history_independent, rerun_same, C07_holds (= `C07_full`),
+                    bytecode_immutable, step_keeps_bytecode, no_shared_store_outside_allowlist.
+  `step_live` is proved opcode by opcode (Proofs/C07Step, C07Throw, C07Ops): every function of
+  VM/Base, VM/Step and `handlePanic` is `Live` — it gives the same result on two states that
+  differ only in dead frame data and the recorded trace, which is exactly the difference that
+  `Clear`/`SetBytecode` leave between a used VM and a new one (both nil the whole stack).
+  `function_cells_immutable`: the heap part of the constants — no function cell is ever overwritten.
 -/
 namespace UgoVerif.Props.C07
 open UgoVerif UgoVerif.Go UgoVerif.VM
@@ -27,7 +29,7 @@ def freshFor (s : State) (consts : Array V) (mainFn : Addr) (numModules : Nat) :
 theorem resetEq_setBytecode (c : Array V) (m : Addr) (n : Nat) (s : State) (hs : Shape s) :
     ResetEq (setBytecode c m n s) (freshFor s c m n) :=
   { heap := rfl, codes := rfl, consts := rfl, mainFn := rfl, numModules := rfl, modules := rfl, noPanic := rfl,
-    steps := rfl, traceOn := rfl, shapeS := ⟨hs.stack, hs.frames⟩,
+    steps := rfl, traceOn := rfl, shapeS := ⟨by simp [setBytecode], hs.frames⟩,
     shapeT := ⟨by simp [freshFor, newState], by simp [freshFor, newState, emptyFrames]⟩ }
 
 theorem resetEq_clear (s : State) (hs : Shape s) :
@@ -61,16 +63,22 @@ theorem prologue_live (g : V) (args : List V) (c : Array V) (m : Addr) (n : Nat)
   · exact (prologue_live_core g args (fun _ => False) _ _ (resetEq_clear s hs) (fun _ h => h.elim)).mono
       (fun _ _ h => h.1)
 
-/-- `liveEq` and the whole stacks agree: the relation that holds after `Clear()` -/
+/-- `liveEq`, all stack slots agree, the frame array has its Go size: what holds after the
+    prologue on a VM that was cleared or given new bytecode -/
 def liveEqS : State → State → Prop := liveEqW (fun _ => True)
 
-/-- **prologue_live_cleared.**  After `Clear()` (and optionally `SetBytecode`) the states after the
-    prologue agree on every stack slot, not only below `sp`: nothing of the stack survives. -/
+theorem stack_setBytecode_fresh (s : State) (c : Array V) (m : Addr) (n : Nat) (i : Nat) :
+    (setBytecode c m n s).stack[i]! = (freshFor s c m n).stack[i]! := rfl
+
+/-- **prologue_live_cleared.**  `Clear` and (the repaired) `SetBytecode` nil the whole stack:
+    after the prologue the two states agree on every stack slot, not only below `sp`. -/
 theorem prologue_live_cleared (g : V) (args : List V) (c : Array V) (m : Addr) (n : Nat) (s : State) (hs : Shape s) :
-    SameEnd liveEqS (exec (prologue g args) (setBytecode c m n (clear s))) (exec (prologue g args) (freshFor s c m n))
+    SameEnd liveEqS (exec (prologue g args) (setBytecode c m n s)) (exec (prologue g args) (freshFor s c m n))
+    ∧ SameEnd liveEqS (exec (prologue g args) (setBytecode c m n (clear s))) (exec (prologue g args) (freshFor s c m n))
     ∧ SameEnd liveEqS (exec (prologue g args) (clear s))
         (exec (prologue g args) (freshFor s s.consts s.mainFn s.numModules)) :=
-  ⟨prologue_live_core g args _ _ _ (resetEq_clear_setBytecode c m n s hs) (fun _ _ => rfl),
+  ⟨prologue_live_core g args _ _ _ (resetEq_setBytecode c m n s hs) (fun _ _ => rfl),
+   prologue_live_core g args _ _ _ (resetEq_clear_setBytecode c m n s hs) (fun _ _ => rfl),
    prologue_live_core g args _ _ _ (resetEq_clear s hs) (fun _ _ => rfl)⟩
 
 /-! ### the Bytecode is never modified -/
@@ -98,6 +106,21 @@ theorem handlePanic_keeps_bytecode (m : String) (s : State) :
     ⟨rfl, rfl, rfl, rfl⟩
   ⟨h.1, h.2.1⟩
 
+/-- **function_cells_immutable** (heap half of `bytecode_immutable`).  A function cell — the
+    compiled functions among the constants, every closure — is never overwritten by `Run`,
+    from any state, ending in any way, for any fuel: the model overwrites existing heap cells
+    only through `heapUpd` (same-kind update of an array, map or iterator cell) and `boxSet`
+    (write through an `*ObjectPtr`); allocation and `Copy()` append. -/
+theorem function_cells_immutable (F : FloatOps) (fuel : Nat) (g : V) (args : List V) (s : State)
+    (a : Nat) (c : Nat) (f : Option (List Addr)) (h : s.heap[a]? = some (Cell.fn c f)) :
+    (runFrom F fuel g args s).2.heap[a]? = some (Cell.fn c f) :=
+  runFrom_fnk (h0 := s.heap) F fuel g args s (fun _ _ _ h => h) a c f h
+
+/-- one instruction never overwrites a function cell -/
+theorem step_keeps_function_cells (F : FloatOps) (s : State) (a : Nat) (c : Nat) (f : Option (List Addr))
+    (h : s.heap[a]? = some (Cell.fn c f)) : (exec (step F) s).2.heap[a]? = some (Cell.fn c f) :=
+  (fnk_step (h0 := s.heap) F).elim s (fun _ _ _ h => h) a c f h
+
 /-- structural half, over the table REGENERATED from vm.go (and objects.go, modules.go,
     bytecode.go, parser/source_file.go): functions that may store to data rooted at the shared
     Bytecode.  `loop`, `Run`, `Clear`, every `xOp…` helper are NOT in the list. -/
@@ -113,13 +136,17 @@ theorem no_shared_store_outside_allowlist :
 
 /-! ### history independence -/
 
-/-- one instruction preserves the relation (both runs end the same way, also on a Go panic) -/
-def StepLive (F : FloatOps) (R : State → State → Prop) : Prop :=
-  ∀ s t, R s t → Both R (exec (step F) s) (exec (step F) t)
+/-- **step_live.**  One instruction — operand fetch, the H1 record, any of the 44 opcodes with
+    its error and Go-panic paths — ends the same way on two states that differ only in dead
+    frame data and the recorded trace, and leaves such states again. -/
+theorem step_live (F : FloatOps) (s t : State) (h : LiveS s t) : Both LiveS (exec (step F) s) (exec (step F) t) :=
+  LiveS.of_live (live_step F) h
 
-/-- `handlePanic` (with `throw`/`handleThrownError`) preserves the relation -/
-def PanicLive (R : State → State → Prop) : Prop :=
-  ∀ m s t, R s t → Both R (exec (handlePanic m) s) (exec (handlePanic m) t)
+/-- **panic_live.**  The recovery path (`handlePanic` → `throw` → `handleThrownError`, frame
+    search included) does too — although the model's fuel for it counts dead handlers. -/
+theorem panic_live (m : String) (s t : State) (h : LiveS s t) :
+    Both LiveS (exec (handlePanic m) s) (exec (handlePanic m) t) :=
+  LiveS.of_live (live_handlePanic m) h
 
 /-- **lifting_run** (full).  For ANY relation `R ⊆ liveEq` preserved by one instruction, by
     the recovery path, by the abort assignment and by the deferred `clearCurrentFrame`: if the
@@ -130,49 +157,38 @@ theorem lifting_run {F : FloatOps} {R : State → State → Prop} (hR : LiveRel 
     (runFrom F fuel g args s).1 = (runFrom F fuel g args t).1 :=
   runFrom_live hR fuel g args s t hpro
 
-/-- `liveEqS` meets the requirements of the lifting, given the two liveness hypotheses -/
-theorem liveRel_liveEqS {F : FloatOps} (hstep : StepLive F liveEqS) (hpanic : PanicLive liveEqS) :
-    LiveRel F liveEqS :=
-  { toLive := fun h => h.1, step := hstep, panic := hpanic,
-    abort := fun s t h => ⟨liveEq_abort s t h.1, h.2⟩,
-    ccf := fun s t h => ⟨liveEq_ccf s t h.1, h.2⟩ }
-
-/-- the full statement: after ANY history (`s` arbitrary), `Clear()` and/or `SetBytecode(bc)`,
-    `Run` returns what it returns on a new VM; for every fuel.  (For `SetBytecode` alone the
-    quantification over `c m n` is meant for bytecode that reads no stack slot at or above
-    `sp` — what the compiler emits; a hand-made `GETLOCAL 5` in a function with no locals reads
-    the residue on the real VM as well, see notes/design-C07.md.) -/
+/-- the full statement: after ANY history (`s` arbitrary), `SetBytecode(bc)`, `Clear()` then
+    `SetBytecode(bc)`, or `Clear()` alone, `Run` returns what it returns on a new VM; for every
+    bytecode (also hand-made or decoded), globals, arguments and fuel. -/
 def C07_full : Prop :=
   ∀ (F : FloatOps) (fuel : Nat) (g : V) (args : List V) (c : Array V) (m : Addr) (n : Nat) (s : State), Shape s →
+    (runFrom F fuel g args (setBytecode c m n s)).1 = (runFrom F fuel g args (freshFor s c m n)).1 ∧
     (runFrom F fuel g args (setBytecode c m n (clear s))).1 = (runFrom F fuel g args (freshFor s c m n)).1 ∧
     (runFrom F fuel g args (clear s)).1 = (runFrom F fuel g args (freshFor s s.consts s.mainFn s.numModules)).1
 
-/-- **run_history_independent_cleared_partial.**  `C07_full` under the two hypotheses that are
-    not proved yet: one instruction and the recovery path preserve `liveEqS`. -/
-theorem run_history_independent_cleared_partial {F : FloatOps} (hstep : StepLive F liveEqS) (hpanic : PanicLive liveEqS)
-    (fuel : Nat) (g : V) (args : List V) (c : Array V) (m : Addr) (n : Nat) (s : State) (hs : Shape s) :
+/-- **run_history_independent.**  No hypothesis about the bytecode, none about the history. -/
+theorem run_history_independent (F : FloatOps) (fuel : Nat) (g : V) (args : List V) (c : Array V) (m : Addr) (n : Nat)
+    (s : State) (hs : Shape s) :
+    (runFrom F fuel g args (setBytecode c m n s)).1 = (runFrom F fuel g args (freshFor s c m n)).1 ∧
     (runFrom F fuel g args (setBytecode c m n (clear s))).1 = (runFrom F fuel g args (freshFor s c m n)).1 ∧
     (runFrom F fuel g args (clear s)).1 = (runFrom F fuel g args (freshFor s s.consts s.mainFn s.numModules)).1 :=
-  ⟨lifting_run (liveRel_liveEqS hstep hpanic) fuel g args _ _ (prologue_live_cleared g args c m n s hs).1,
-   lifting_run (liveRel_liveEqS hstep hpanic) fuel g args _ _ (prologue_live_cleared g args c m n s hs).2⟩
+  have hp := prologue_live_cleared g args c m n s hs
+  ⟨lifting_run (liveRel_LiveS F) fuel g args _ _ (hp.1.mono (fun _ _ h => liveS_of_liveEqW h)),
+   lifting_run (liveRel_LiveS F) fuel g args _ _ (hp.2.1.mono (fun _ _ h => liveS_of_liveEqW h)),
+   lifting_run (liveRel_LiveS F) fuel g args _ _ (hp.2.2.mono (fun _ _ h => liveS_of_liveEqW h))⟩
 
-/-- **run_history_independent_partial.**  `SetBytecode(bc)` without `Clear()`: the same with
-    the weaker relation `liveEq` (stack slots at or above `sp` are residue). -/
-theorem run_history_independent_partial {F : FloatOps} (hstep : StepLive F liveEq) (hpanic : PanicLive liveEq)
-    (fuel : Nat) (g : V) (args : List V) (c : Array V) (m : Addr) (n : Nat) (s : State) (hs : Shape s) :
-    (runFrom F fuel g args (setBytecode c m n s)).1 = (runFrom F fuel g args (freshFor s c m n)).1 :=
-  lifting_run (liveRel_liveEq hstep hpanic) fuel g args _ _ (prologue_live g args c m n s hs).1
+theorem C07_holds : C07_full := fun F fuel g args c m n s hs => run_history_independent F fuel g args c m n s hs
 
-/-- **rerun_same_partial.**  Running the same Bytecode again on the cleared VM gives the outcome
-    of the first run on the new VM — whatever that first run did to the VM. -/
-theorem rerun_same_partial {F : FloatOps} (hstep : StepLive F liveEqS) (hpanic : PanicLive liveEqS)
-    (fuel fuel' : Nat) (g g' : V) (args args' : List V) (s0 : State) (hs : Shape (runFrom F fuel' g' args' s0).2) :
+/-- **rerun_same.**  Running the same Bytecode again on the cleared VM gives the outcome of a
+    run on a new VM — whatever the first run (any globals, arguments, fuel, any end) did. -/
+theorem rerun_same (F : FloatOps) (fuel fuel' : Nat) (g g' : V) (args args' : List V) (s0 : State)
+    (hs : Shape (runFrom F fuel' g' args' s0).2) :
     let used := (runFrom F fuel' g' args' s0).2
     (runFrom F fuel g args (clear used)).1 =
       (runFrom F fuel g args (freshFor used s0.consts s0.mainFn s0.numModules)).1 := by
   intro used
   have hb := bytecode_immutable F fuel' g' args' s0
-  have := (run_history_independent_cleared_partial hstep hpanic fuel g args used.consts used.mainFn used.numModules used hs).2
+  have := (run_history_independent F fuel g args used.consts used.mainFn used.numModules used hs).2.2
   rw [hb.2.1, hb.2.2.1, hb.2.2.2] at this
   exact this
 
